@@ -30,7 +30,7 @@ RULE = ("2 of 3 runs: 1-12 ACN-Data documents (instants incl. DST transitions, s
         "period, #docs, capped?)")
 PROBES = ["via_generate_events", "acndata_path", "stochastic_path", "stay_crosses_dst", "max_len_capped", "force_feasible_capped", "fit_used",
           "fit_closed_form_branch", "fit_search_branch", "naive_start", "host_tz_non_utc", "fit_infeasible_inconclusive",
-          "departure_eq_arrival", "request_below_half_deliverable", "lenient_server_out_of_window_docs", "arrival_before_start", "integer_typed_sample_matrix", "earlier_call_with_other_battery_params"]
+          "departure_eq_arrival", "request_below_half_deliverable", "lenient_server_out_of_window_docs", "arrival_before_start", "integer_typed_sample_matrix", "earlier_call_with_other_battery_params", "one_battery_params_dict_for_two_conversions"]
 FAULT_DIMENSION = "host time zone changes (S6); server paging as in C20; lenient server returning documents outside the requested window"
 REAL_VS_STUB = ("real: acndata_events.get_evs/_convert_to_ev, DataClient, acndata.utils, StochasticEvents.generate_events/"
                 "_convert_ev_matrix, batt_cap_fn, EV, Battery, Linear2StageBattery; stub: requests -> fake server; "
@@ -125,6 +125,12 @@ def gen(rs, tier):
         common["reversed_docs"] = True
     if r.random() < 0.3:
         common["prelude_battery"] = r.choice(["fit", "l2_kwargs", "ideal_kwargs", "none"])
+    rsp = sub(rs, "same_params_object")
+    if rsp.random() < 0.2 and bp != "none":
+        # the study re-uses ONE battery_params dictionary for all its conversions (an earlier one was made for chargers of
+        # another maximum power): what the library does with the caller's dictionary must not carry over
+        common["prelude_battery"] = bp
+        common["same_params_object"] = True
     common.update(path="acndata", docs=docs, pages=[r.choice([0, 1, 2, 5, 100]) for _ in range(r.choice([0, 1, 3]))],
                   start=start, end=start + 40 * 86400, start_zone=r.choice([None, None] + ZONES))
     return common
@@ -228,6 +234,7 @@ def check(sc):
                         z = zoneinfo.ZoneInfo(sc["start_zone"])
                         start = dt.datetime.fromtimestamp(sc["start"], tz=z)
                         end = dt.datetime.fromtimestamp(sc["end"], tz=z)
+                    bp_main = battery_params(sc)
                     if sc.get("prelude_battery"):
                         # the library has already converted another batch, with other battery parameters: nothing may stick
                         out.probe("earlier_call_with_other_battery_params")
@@ -237,17 +244,20 @@ def check(sc):
                         dc_mod.requests = srv0
                         try:
                             acndata_events.get_evs("tok", "caltech", start, end, period, sc["voltage"], 32 * sc["voltage"] / 1000.0,
-                                                   battery_params=battery_params(dict(sc, battery=sc["prelude_battery"])), force_feasible=True)
+                                                   battery_params=(bp_main if sc.get("same_params_object") else battery_params(dict(sc, battery=sc["prelude_battery"]))),
+                                                   force_feasible=True)
                         except ValueError:
                             pass
                         dc_mod.requests = server
+                        if sc.get("same_params_object"):
+                            out.probe("one_battery_params_dict_for_two_conversions")
                     try:
                         if sc["seed"] % 5 == 0:
                             # through the public wrapper that builds the event queue: same sessions, each under a plug-in event
                             # stamped with its arrival period
                             out.probe("via_generate_events")
                             q_ = acndata_events.generate_events("tok", "caltech", start, end, period, sc["voltage"], sc["max_power"],
-                                                                max_len=sc["max_len"], battery_params=battery_params(sc),
+                                                                max_len=sc["max_len"], battery_params=bp_main,
                                                                 force_feasible=sc["force_feasible"])
                             pairs_ = sorted(((ts_, e_.ev) for ts_, e_ in q_.queue), key=lambda z: z[0])
                             for ts_, ev_ in pairs_:
@@ -257,7 +267,7 @@ def check(sc):
                             evs = [ev_ for _, ev_ in pairs_]     # (stable sort: ties keep queue order; the oracle below matches by id)
                         else:
                             evs = acndata_events.get_evs("tok", "caltech", start, end, period, sc["voltage"], sc["max_power"],
-                                                         max_len=sc["max_len"], battery_params=battery_params(sc),
+                                                         max_len=sc["max_len"], battery_params=bp_main,
                                                          force_feasible=sc["force_feasible"])
                     except ValueError as x:
                         if sc["battery"] == "fit" and "No feasible battery size" in str(x):
